@@ -80,7 +80,9 @@ Record cfg := mkcfg {
 
 Definition code_cfg (drain : bool) (ri : Z) : cfg :=
   mkcfg loop_switch drain ri interrupt_cap tick_head_empty tick_head_error tick_cmp
-        loop_clears_fetch_failed select_tick_sets_fetch_failed select_tick_fetches
+        loop_clears_fetch_failed
+        (select_tick_sets_fetch_failed && exec_returns_false_on_fetch_error && fetch_pop_error_returns_error)
+        select_tick_fetches
         select_interrupt_recomputes fetch_resets_after_push.
 
 Definition cmp (op : cmp_op) (a b : Z) : bool :=
